@@ -21,6 +21,10 @@ Inductive event :=
 | NoVar                                      (* script error: no such syncvar *)
 | Fault.                                     (* the C code would dereference NULL or leave the word locked for ever *)
 
+(* one blocked operation (a qthread_addrres_t in the code): the task, the value a blocked writeEF will store (0 for
+   reads), and whether a blocked read has a non-NULL destination *)
+Record waiter := mkW { w_tid : N; w_val : N; w_dest : bool }.
+
 Definition two60 : N := 2 ^ 60.
 Definition two64 : N := 2 ^ 64.
 Definition wrap64 (x : N) : N := x mod two64.
